@@ -1,20 +1,44 @@
 (* C04 -- decoders never panic, abort or overflow, whatever the bytes.
-   What is proved here, for every buffer and every argument: each reader of the runtime
-   returns Ok or Err -- never a panic of Buf::advance / Bytes::slice / Buf::get_*, and never
-   an arithmetic overflow -- because every advance/slice/get is preceded by a check against
-   remaining().  On success the cursor only moves forward inside the buffer (C03_frame), so no
-   later read can go out of bounds either.
-   PARTIAL: the theorem for whole emitted decoders ("dec (gen A) ... is Ok or Err for every
-   byte string, with fuel linear in the input") is not proved; the two remaining panic sites of
-   the model -- the unguarded `advance(pad_length(sum))` of read_variable_array, vacuous
-   because every emitted wire_size() is a multiple of 4 (C02_wsz_mult4), and `Stuck` (module
-   rustc would reject) -- and termination are tied to the code by the correspondence check K3
-   on hostile inputs (every truncation, boundary words, random words, huge counts).  Native
-   stack depth (finding F9) and allocator failure cannot be exhibited by a Gallina model.
-   Proofs in XdrProofs.MiscProofs / XdrProofs.LedgerProofs. *)
-From XdrProofs Require Import MiscProofs LedgerProofs.
+   C04_no_panic: for every specification satisfying the decidable hypothesis sup4_b (sup_b +
+   every referenced type is declared), every declared type, EVERY byte string and every fuel,
+   the emitted decoder (Sem.dec over Emit.gen) never panics: no Buf::advance / Bytes::slice /
+   Buf::get_* out of bounds -- including the unguarded `advance(pad_length(sum))` of
+   read_variable_array, harmless because the wire_size() of every decoded element is a whole
+   number of words (Shaped.shaped_size) -- and never reaches a state rustc would have rejected;
+   whatever it returns with Ok has the shape of the declared type.  Also: every reader of the
+   runtime is total on every buffer, and the cursor never leaves the buffer.
+   PARTIAL: termination (the model's Fuel outcome) is not excluded by a theorem; it and the
+   model itself are tied to the code by K3 on hostile inputs (every truncation, boundary
+   words, random words, huge counts).  Native stack depth (finding F9) and allocator failure
+   cannot be exhibited by a Gallina model.
+   Proofs in XdrProofs.NoPanic / Shaped / MiscProofs / LedgerProofs. *)
+From XdrProofs Require Import MiscProofs LedgerProofs NoPanic.
 Open Scope N_scope.
 Open Scope list_scope.
+
+Theorem C04_no_panic :
+  forall (A : ast) (md : module_ir),
+    gen A = EOk md -> sup4 A ->
+    forall (n : string) (t : ast_type) (fuel : nat) (s : st),
+      get_type A n = Some t -> bytes_ok (s_rem s) ->
+      match dec md fuel n s with
+      | Ok v s' => ShN A n v /\ bytes_ok (s_rem s')
+      | Panic _ => False
+      | _ => True
+      end.
+Proof. exact (fun A md Hg Hs n t fuel s Hget Hb => dec_safe A md Hg Hs fuel n t Hget s Hb). Qed.
+Print Assumptions C04_no_panic.
+
+Theorem C04_sup4_decidable : forall A, sup4_b A = true -> sup4 A.
+Proof. exact sup4_b_sound. Qed.
+Print Assumptions C04_sup4_decidable.
+
+(* wire_size() is defined, and a whole number of words, on every value a decoder can return *)
+Theorem C04_decoded_sizes_are_words :
+  forall (A : ast) (md : module_ir), gen A = EOk md -> sup A ->
+  forall n v, ShN A n v -> exists w, wsz md v = Some w /\ w mod 4 = 0.
+Proof. exact shaped_wsz. Qed.
+Print Assumptions C04_decoded_sizes_are_words.
 
 Theorem C04_read_be_total : forall k s, total (read_be k s).
 Proof. exact read_be_total'. Qed.
